@@ -181,7 +181,8 @@ def run(c, chk):
     chk.floor('R9.3 functions comparing titles', len(sites), 2)
     # ---- R9.18: "remove by title removes that section", "an unknown title fails without effect": titles and names are compared whole
     whole_comparisons(c, chk, 'R9.18', 'section titles and option names are compared as whole strings: no length-limited comparison stops at the length of one of its operands',
-                      consequence=' - a title that is only the beginning of an existing one addresses that section (cfg_rmtsec("alp") removes "alpha")')
+                      consequence=' - a title that is only the beginning of an existing one addresses that section (cfg_rmtsec("alp") removes "alpha")',
+                      exclude_funcs=('cfg_free',))         # (the root test of cfg_free() is C08 R8.14)
 
     # ---- R9.4 --------------------------------------------------------------------------------
     from .c18 import result_used
@@ -573,7 +574,7 @@ def merge_words(c, sites):
 LIMITED_CMP = ('strncmp', 'strncasecmp', 'memcmp', 'bcmp')
 
 
-def whole_comparisons(c, chk, rid, text, only_funcs=None, operand=None, consequence=''):
+def whole_comparisons(c, chk, rid, text, only_funcs=None, operand=None, consequence='', exclude_funcs=()):
     """names, titles and the fixed words of the library are compared as whole strings: a length-limited comparison whose
     length is the length of one of its operands (or a constant not beyond the end of a literal operand) is a PREFIX test -
     "alp" then equals "alpha".  Expected number of such comparisons: none (the library uses strcmp()/strcasecmp()); the
@@ -585,7 +586,7 @@ def whole_comparisons(c, chk, rid, text, only_funcs=None, operand=None, conseque
     bad = None
     nlim = 0
     for f in c.confuse.funcs.values():
-        if only_funcs is not None and f.name not in only_funcs:
+        if (only_funcs is not None and f.name not in only_funcs) or f.name in exclude_funcs:
             continue
         if f.name in c.unknown_funcs and only_funcs is None:
             continue          # a helper is explored as part of the function it was split off
